@@ -1,12 +1,116 @@
-(* C04 - flushing never crashes for any reachable aggregate, configuration or backend. *)
+(* C04 - flushing never crashes for any reachable aggregate, configuration or backend.
+
+   Models: Model/Stats.v + Model/Histogram.v (MetricAggregator.Flush per timer, the same index
+   arithmetic as the Go code over checked operations: an index or slice out of range is the outcome
+   Panic), Model/FlushPartial.v (the aggregate as an LTS: merge | flush | reset, every expiry
+   pattern a label), Model/Rank.v (the percentile rank in binary64), Model/PayloadPartial.v (the
+   index / slice / make expressions of the backend payload builders).  [V] is the carrier of
+   float64 values: the theorems hold for EVERY carrier whose sort preserves the length, so in
+   particular for Go's float64 with NaN and infinities. *)
+From Coq Require Import String.
 From Coq Require Import List ZArith.
-From GS Require Import Base.Bytes Model.GoPartial Model.Rank Proofs.RankSweep.
+From GS Require Import Base.Bytes Model.GoPartial Model.Histogram Model.Stats Model.Rank
+  Model.FlushPartial Model.PayloadPartial.
+From GS Require Import Proofs.FlushSafety Proofs.FlushSafetyPayload Proofs.FlushSafetyMain
+  Proofs.FlushSafetyExamples Proofs.RankUnbounded Proofs.RankSweep.
+Import ListNotations.
 Local Open Scope Z_scope.
 
-(* The percentile rank int(round(|p| / 100 * n)), computed in binary64 as the Go code does, is an
-   index into a timer with n values - finite-sweep version: every integer percentile, every
-   count up to 10 000. *)
+(* The percentile rank int(round(|p| / 100 * float64(n))), computed in IEEE-754 binary64 exactly as
+   the Go code does, is a count between 0 and n: for every integer percentile and every timer
+   with fewer than 2^52 values. *)
+Theorem C04_rank_in_range : forall p n,
+  -100 <= p <= 100 -> 0 <= n < 2^52 -> 0 <= rank p n <= n.
+Proof. exact rank_in_range_unbounded. Qed.
+Print Assumptions C04_rank_in_range.
+
+(* The same by exhaustive evaluation of the float computation, without the real-number axioms:
+   201 percentiles x counts 0..2000. *)
 Theorem C04_rank_in_range_sweep : forall p n,
-  -100 <= p <= 100 -> 0 <= n <= 10000 -> 0 <= rank p n <= n.
+  -100 <= p <= 100 -> 0 <= n <= 2000 -> 0 <= rank p n <= n.
 Proof. exact rank_in_range_sweep. Qed.
 Print Assumptions C04_rank_in_range_sweep.
+
+(* For every configuration the server accepts (thresholds with |p| <= 100, any TimerSubtypes mask,
+   bucket limit >= 0) and every history of merge | flush | reset from the empty aggregator - so:
+   persisted timers without values, histogram timers with malformed bucket lists, any expiry
+   pattern - no step panics, Flush does not panic in the state reached, and what is reported
+   satisfies the invariant [Reported] the payload builders rely on (percentile names contain
+   '_'; a histogram is nil, empty, or has exactly one +Inf key). *)
+Theorem C04_flush_never_panics :
+  forall (V : Type) (O : vops V) (pf : str -> option bound) (c : config V) (ls : list (label V)),
+    (forall l, length (vsort O l) = length l) ->
+    Forall (fun p => -100 <= p <= 100) (c_pcts c) -> 0 <= c_limit c ->
+    history_values ls < 2^52 ->
+    exists a, run O pf rank false c ls = Ok a
+              /\ Reported (report_of a)
+              /\ exists a', flush O pf rank false c a = Ok a' /\ Reported (report_of a').
+Proof. exact (fun V O pf c ls H => flush_never_panics_float O pf H c ls). Qed.
+Print Assumptions C04_flush_never_panics.
+
+(* InfluxDB (v1 and v2 build the same lines): kv[0] / kv[1] of formatNameTags, buf[:len(buf)-1]
+   of addBaseTimer and addHistogramTimer are in range for EVERY map and mask. *)
+Theorem C04_payload_never_panics_influxdb : forall (m : bmask) (r : reported),
+  exists lines, influx_payload false m r = Ok lines.
+Proof. exact influx_payload_ok. Qed.
+Print Assumptions C04_payload_never_panics_influxdb.
+
+(* New Relic, all three flush types: keyvalpair[0] / [1] of setTags, pct.Str[:lastUnderscore] and
+   pct.Str[lastUnderscore+1:] of the dimensional metrics. *)
+Theorem C04_payload_never_panics_newrelic : forall (ty : nr_type) (r : reported),
+  Reported r -> exists u, nr_payload ty r = Ok u.
+Proof. exact nr_payload_ok. Qed.
+Print Assumptions C04_payload_never_panics_newrelic.
+
+(* OTLP, both conversions, any resource keys, any batch size >= 1: parseTag, the in-place tag
+   partition, kv[:idx] / kv[idx+1:], g.batches[len-1], &values[0] / &values[len-1],
+   make([]float64, len(buckets)-1), BucketCounts[i], ExplicitBounds[i]. *)
+Theorem C04_payload_never_panics_otlp :
+  forall (as_hist : bool) (m : bmask) (keys : list str) (batch : Z) (r : reported),
+    Reported r -> 1 <= batch -> exists batches, otlp_payload false as_hist m keys batch r = Ok batches.
+Proof. exact otlp_payload_ok. Qed.
+Print Assumptions C04_payload_never_panics_otlp.
+
+(* CloudWatch: segments[0] / [1], dimensions[:10], and the sending loop metricData[start:end]
+   neither panics nor fails to end, for EVERY map and mask. *)
+Theorem C04_payload_never_panics_cloudwatch : forall (m : bmask) (r : reported),
+  exists sizes, cw_payload m r = Ok (Done sizes).
+Proof. exact cw_payload_ok. Qed.
+Print Assumptions C04_payload_never_panics_cloudwatch.
+
+(* The property in one statement. *)
+Theorem C04_flush_and_payloads_never_panic :
+  forall (V : Type) (O : vops V) (pf : str -> option bound) (c : config V) (ls : list (label V))
+         (m : bmask) (ty : nr_type) (as_hist : bool) (keys : list str) (batch : Z),
+    (forall l, length (vsort O l) = length l) ->
+    Forall (fun p => -100 <= p <= 100) (c_pcts c) -> 0 <= c_limit c -> 1 <= batch ->
+    history_values ls < 2^52 ->
+    exists a a', run O pf rank false c ls = Ok a /\ flush O pf rank false c a = Ok a'
+      /\ (exists lines, influx_payload false m (report_of a') = Ok lines)
+      /\ (exists u, nr_payload ty (report_of a') = Ok u)
+      /\ (exists batches, otlp_payload false as_hist m keys batch (report_of a') = Ok batches)
+      /\ (exists sizes, cw_payload m (report_of a') = Ok (Done sizes)).
+Proof. exact (fun V O pf c ls m ty ah keys batch H => flush_and_payloads_never_panic O pf H c ls m ty ah keys batch). Qed.
+Print Assumptions C04_flush_and_payloads_never_panic.
+
+(* The code before the repairs panics on reachable states (legacy = true); the repaired code
+   (legacy = false) does not, on the same histories. *)
+Theorem C04_legacy_refuted_D3 :
+  config_ok (cfg [-90] 0) /\ run u_ops pf_ex rank true (cfg [-90] 0) h_D3 = Panic
+  /\ (exists a, run u_ops pf_ex rank false (cfg [-90] 0) h_D3 = Ok a).
+Proof. exact legacy_refuted_D3. Qed.
+Print Assumptions C04_legacy_refuted_D3.
+
+Theorem C04_legacy_refuted_D4 :
+  exists a, run u_ops pf_ex rank false (cfg [90] 0) h_D4 = Ok a
+    /\ influx_payload true b_on (report_of a) = Panic
+    /\ (exists lines, influx_payload false b_on (report_of a) = Ok lines).
+Proof. exact legacy_refuted_D4. Qed.
+Print Assumptions C04_legacy_refuted_D4.
+
+Theorem C04_legacy_refuted_D5 :
+  exists a, run u_ops pf_ex rank false (cfg [90] 5) h_D5 = Ok a
+    /\ otlp_payload true true b_on [] 1000 (report_of a) = Panic
+    /\ (exists g, otlp_payload false true b_on [] 1000 (report_of a) = Ok g).
+Proof. exact legacy_refuted_D5. Qed.
+Print Assumptions C04_legacy_refuted_D5.
